@@ -97,4 +97,16 @@ CHECKS["C16"] = {
     "note": TB,
     "technique": "TLC layout-versus-layout translation validation",
 }
+CHECKS["C14"] = {
+    "category": "model_checking",
+    "engine": "tlc-mc",
+    "text": "Lifecycle.tla (instances, flags, predicate numbers, holder residue, pending hybrids, queued immediates, temp counter, class-level "
+            "registry; entry points compile_c_stmt / transform_insn / add_sub_routine; failing behaviours) is model-checked exhaustively for history "
+            "independence; TLC-simulated histories (failures interleaved at every position, both entry points, two instances) are replayed on real "
+            "Compiler objects, one process per history, and every recorded step (returned/raised, projected state, normalised output vs a fresh "
+            "compiler, attribute list vs a fresh compiler, temp counter) is validated by TLC against the specification",
+    "note": "trusted base: TLC, Lifecycle.tla, the catalogue mapping abstract behaviours to concrete texts (each entry is compiled by a fresh compiler "
+            "first), the normaliser (bijective renaming by first occurrence)",
+    "technique": "TLC model checking of a TLA+ lifecycle model + replay of TLC-generated histories with trace validation",
+}
 NOT_YET = {}
